@@ -12,8 +12,19 @@ object* d of unknown class (any BaseException).  Obligations, per function F:
                      (identity through the engine's exception splitting; `rewrite_traceback_stack` returns
                      `exc_value.with_traceback(..)` of the handled object: BaseException.with_traceback returns self,
                      dependency spec), not wrapped, replaced or swallowed.
-  C38.no_residue.F   on exceptional exits no object that existed before the call is written (state.written vs
-                     state.allocated).
+  C38.no_residue.F   frame of the exceptional paths: no attribute / content of an object that existed before the call
+                     (Template, Environment, cache, Context, LoopContext, stream ...) differs from its pre-state; every
+                     attribute the function assigns is part of the abstract pre-state, every other attribute is arbitrary.
+  C38.data_path_reached.F  (guard) the contract explores at least one path on which each expected data callee raises -
+                     otherwise the three clauses would hold vacuously and F is reported undecided.
+  C38.handlers.<module>.<function>  AST scan of ALL src/jinja2/*.py: every `except` clause that does not unconditionally
+                     re-raise must be listed in HANDLER_CLASSES with exactly its classes and justified in HANDLER_WHY (a
+                     contract of this module, or the reason why its try body runs no data code).  A new handler anywhere,
+                     a widened clause, or a justification naming a missing contract fails.
+  C38.native.<F> / C38.native.history[sync|async]  bounded stand-ins on the real code: fault injection per function and
+                     site; fault sequences over a template family (import / include / extends / macro / loop) through every
+                     way of rendering (render, generate, stream, buffered stream, dump, async variants), followed by clean
+                     renders of the whole family that must equal a fresh environment's output.
 
 Documented signals (property statement, docs/templates.rst "Variables", docs/api.rst, the filters' docstrings):
 attribute access -> AttributeError; subscription -> lookup / type / attribute errors; a callable raising StopIteration ->
@@ -40,6 +51,7 @@ from pyvc import abstract as A
 from pyvc import models
 
 import jinja2
+import jinja2.nodes
 import jinja2.environment as E
 import jinja2.runtime as R
 import jinja2.sandbox as SB
@@ -55,7 +67,19 @@ CONVERSION = (TypeError, ValueError, OverflowError)
 ALLOWED = {
     "Template.render": {"*": ()}, "Template.render[async]": {"*": ()}, "Template.render_async": {"*": ()},
     "Template.generate": {"*": ()}, "Template.generate[async]": {"*": ()}, "Template.generate_async": {"*": ()},
-    "Template._get_default_module": {"*": ()},
+    "Template._get_default_module": {"*": ()}, "Template._get_default_module_async": {"*": ()},
+    "Template.make_module": {"*": ()}, "Template.make_module_async": {"*": ()},
+    "Environment._load_template": {"*": ()}, "Environment.get_template": {"*": ()},
+    "TemplateStream._buffered_generator": {"next": (StopIteration,)}, "TemplateStream.__next__": {"*": ()},
+    "TemplateStream.dump": {"*": ()}, "TemplateStream.dump[encoding]": {"*": ()},
+    "BlockReference.__call__": {"*": ()}, "BlockReference.__call__[async]": {"*": ()},
+    "LoopContext.__next__": {"*": ()}, "LoopContext._peek_next": {"*": ()}, "LoopContext.length": {"len": (TypeError,), "iter": ()},
+    "AsyncLoopContext.__anext__": {"next": (StopAsyncIteration,)}, "AsyncLoopContext._peek_next": {"next": (StopAsyncIteration,)},
+    "AsyncLoopContext.length": {"len": (TypeError,), "iter": ()},
+    "Macro.__call__": {"*": ()},
+    "do_last": {"*": (StopIteration,)}, "do_first": {"*": (StopAsyncIteration,)},
+    "_IteratorToAsyncIterator.__anext__": {"*": (StopIteration,)},
+    "NativeTemplate.render": {"*": ()}, "NativeTemplate.render[async]": {"*": ()}, "NativeTemplate.render_async": {"*": ()},
     "Environment.handle_exception": {"*": ()}, "rewrite_traceback_stack": {"*": ()},
     "Environment.getattr": {"getattr": (AttributeError,), "getitem": LOOKUP},
     "Environment.getitem": {"getattr": (AttributeError,), "getitem": LOOKUP, "str": ()},
@@ -131,8 +155,20 @@ class FaultVC(VC):
             self.target = target
         VC.__init__(self, "C38", "C38." + self.fn)
 
+    #: sites of data callees that must raise on at least one explored path (a contract that never reaches its data callees
+    #: proves nothing: reported as undecided)
+    expect_sites = None
+
     def run(self, tier, seed):
+        self.seen_sites = set()
         rs = VC.run(self, tier, seed)
+        want = set(self.expect_sites if self.expect_sites is not None else [k for k in ALLOWED[self.fn] if k != "*"])
+        if self.expect_sites is None and not want and not self.seen_sites and self.data_path_needed:
+            want = {"<any data callee>"}
+        missing_sites = sorted(x for x in want if x not in self.seen_sites and not (x == "<any data callee>" and self.seen_sites))
+        if missing_sites and not any(r.status in ("unknown", "error") for r in rs):
+            rs.append(Res(f"C38.{self.fn}.data_path_reached", "unknown", "pyvc", 0.0,
+                          f"no explored path raises a data exception at {missing_sites}: the exceptional postconditions would hold vacuously", self.kind))
         pre = "C38." + self.fn + "."
         for r in rs:
             if r.name.startswith(pre):
@@ -172,7 +208,11 @@ class FaultVC(VC):
         recs = [(c, ln) for (src, c, ln) in out.st.ghost.get("caught", ()) if src is d]
         return bool(recs) and all(within(c, allowed_for(self.fn, d.site)) for c, ln in recs)
 
+    data_path_needed = True
+
     def p_catch(self, pre, out):
+        for d in data_exceptions(out):
+            self.seen_sites.add(d.site)
         for (src, classes, ln) in out.st.ghost.get("caught", ()):
             if not getattr(src, "data", False):
                 continue
@@ -194,12 +234,15 @@ class FaultVC(VC):
         return True
 
     def p_no_residue(self, pre, out):
+        """frame of the exceptional paths: no attribute / content of an object that existed before the call differs from its
+        pre-state (engine state written before the raising call is restored, nothing is left half-way)"""
         if not out.raised:
             return None
-        ok = all(i in out.st.allocated for (i, _f) in out.st.written)
-        if not ok:
+        changed = changed_state(pre, out.st)
+        if changed:
             self.offender = (getattr(root(out.value), "site", None), None, out.value.origin)
-        return ok
+            self.residue = changed
+        return not changed
 
     posts = [("catch", p_catch), ("same_object", p_same_object), ("no_residue", p_no_residue)]
 
@@ -247,10 +290,57 @@ def exception_values(I):
             keep.append(with_traceback)
             I_.specs[("fn", id(with_traceback))] = lambda I2, st2, args, kwargs, node2: [(st2, obj)]
             return [(st, with_traceback)]
+        if isinstance(obj, Exc) and name == "value":  # StopIteration.value
+            return [(st, fresh("stop_value", "obj"))]
         return None
 
     I.attr_hook = attr_hook
     I._c38_keep = keep
+
+
+_ABSENT = object()
+
+
+def same_value(a, b):
+    if a is b:
+        return True
+    if isinstance(a, Sym) and isinstance(b, Sym):
+        return a.k == b.k and a.t.eq(b.t)
+    if isinstance(a, (Sym, Exc)) or isinstance(b, (Sym, Exc)):
+        return False
+    try:
+        return type(a) is type(b) and bool(a == b)
+    except Exception:
+        return False
+
+
+def changed_state(pre, post):
+    """[(object path, field)] of pre-existing heap objects whose state after the call differs from the pre-state."""
+    out = []
+    for (i, f) in sorted(post.written, key=repr):
+        if i in post.allocated or i not in post.heap:
+            continue
+        h1, h0 = post.heap[i], pre.heap.get(i)
+        label = getattr(h1, "path", "") or type(h1).__name__
+        if h0 is None:
+            out.append((label, f))
+        elif isinstance(h1, HObj):
+            a, b = h0.fields.get(f, _ABSENT), h1.fields.get(f, _ABSENT)
+            if a is _ABSENT and f in (post.ghost.get("first_read", {}).get(i, {})):
+                a = post.ghost["first_read"][i][f]
+            if not same_value(a, b):
+                out.append((label, f))
+        elif isinstance(h1, HList):
+            same = (h0.items == h1.items) if (h0.concrete and h1.concrete) else (not h0.concrete and not h1.concrete and h0.arr is h1.arr and h0.n is h1.n)
+            if not same:
+                out.append((label, "<items>"))
+        elif getattr(h1, "items", None) is not None and getattr(h0, "items", None) is not None:
+            if h0.items != h1.items:
+                out.append((label, "<items>"))
+        else:
+            if not all(getattr(h0, a, None) is getattr(h1, a, None) for a in ("dom", "val", "size", "arr", "n")):
+                out.append((label, "<items>"))
+    return out
 
 
 def probe_for(classes, allowed):
@@ -274,6 +364,29 @@ def probe_for(classes, allowed):
 
 def env_obj(st, cls=E.Environment, **fields):
     return A.obj(st, cls, "environment", fields=fields)
+
+
+def stored_attributes(*functions):
+    """names X of `self.X = ...` / `self.X += ...` stores in the real source of the given functions"""
+    import ast
+    from pyvc.extract import function_ast
+    names = set()
+    for fn in functions:
+        node, _mod = function_ast(fn)
+        first = node.args.args[0].arg if node.args.args else None
+        for sub in ast.walk(node):
+            if isinstance(sub, ast.Attribute) and isinstance(sub.ctx, (ast.Store, ast.Del)) and isinstance(sub.value, ast.Name) and sub.value.id == first:
+                names.add(sub.attr)
+    return names
+
+
+def engine_obj(st, cls, path, fields, *functions):
+    """Abstract engine object (Template, LoopContext, ...): the given fields, every attribute the functions under contract
+    assign pre-populated with an arbitrary value (so the pre-state is known to the frame clause), everything else arbitrary."""
+    fields = dict(fields)
+    for name in sorted(stored_attributes(*functions)):
+        fields.setdefault(name, sym(f"{path}.{name}", "obj"))
+    return st.alloc(HObj(cls, fields=fields, path=path, open=True), initial=True)
 
 
 class EnvGetattr(FaultVC):
@@ -471,6 +584,56 @@ class DoAttr(FaultVC):
         return [env_obj(st), sym("obj", "obj"), sym("name", "str")], {}
 
 
+class DoLast(FaultVC):
+    fn = "do_last"
+    target = "jinja2.filters:do_last"
+
+    def configure_more(self, I):
+        I.specs[("fn", id(reversed))] = data_callee("reversed")
+        I.specs["iter_obj"] = data_callee("iter")
+        I.specs["next_obj"] = data_callee("next")
+
+    def setup(self, I, st):
+        return [env_obj(st), sym("seq", "obj")], {}
+
+
+class DoFirstAsync(FaultVC):
+    fn = "do_first"
+    target = "jinja2.filters:do_first"
+
+    def closure(self, I):
+        import inspect as _inspect
+        # the async implementation wrapped by @async_variant (the wrapper dispatches on environment.is_async, C09)
+        for cell in F.do_first.__closure__ or ():
+            f = cell.cell_contents
+            if _inspect.iscoroutinefunction(f) and f.__name__ == "do_first":
+                return I.closure_of_function(f)
+        raise Unsupported("async implementation of do_first not found")
+
+    def configure_more(self, I):
+        I.specs["jinja2.async_utils:auto_aiter"] = data_callee("iter")
+        I.specs["getattr_obj"] = lambda I_, st, args, kwargs, node: [(st, BoundMethod(args[0], args[1]))]
+        I.specs["method_obj"] = lambda I_, st, args, kwargs, node: data_callee("next")(I_, st, args[2:], kwargs, node)
+
+    def setup(self, I, st):
+        return [env_obj(st), sym("seq", "obj")], {}
+
+
+class IterToAsync(FaultVC):
+    """async_utils._IteratorToAsyncIterator.__anext__: only the StopIteration of the wrapped iterator is translated
+    (into StopAsyncIteration, the async form of the same protocol signal)."""
+    fn = "_IteratorToAsyncIterator.__anext__"
+    target = "jinja2.async_utils:_IteratorToAsyncIterator.__anext__"
+
+    def configure_more(self, I):
+        I.specs["next_obj"] = data_callee("next")
+        I.specs["getattr_obj"] = lambda I_, st, args, kwargs, node: [(st, fresh(args[1], "obj"))]
+
+    def setup(self, I, st):
+        import jinja2.async_utils as AU
+        return [A.obj(st, AU._IteratorToAsyncIterator, "adapter", fields={"_iterator": sym("iterator", "obj")})], {}
+
+
 class SelectTemplate(FaultVC):
     fn = "Environment.select_template"
     target = "jinja2.environment:Environment.select_template"
@@ -527,22 +690,151 @@ class EntryPoint(FaultVC):
         return [self.tmpl], {"v": sym("v", "obj")}
 
 
-class DefaultModule(FaultVC):
-    """`_module` is assigned only after make_module returned."""
-    fn = "Template._get_default_module"
-    target = "jinja2.environment:Template._get_default_module"
+class NativeEntry(EntryPoint):
+    def __init__(self, method, is_async, label):
+        self.method, self.is_async = method, is_async
+        FaultVC.__init__(self, label, f"jinja2.nativetypes:NativeTemplate.{method}")
 
     def configure_more(self, I):
-        I.specs["Template.make_module"] = data_callee("make_module")
+        EntryPoint.configure_more(self, I)
+        I.inline.add("jinja2.nativetypes:NativeTemplate.render")
+        I.inline.add("jinja2.nativetypes:NativeTemplate.render_async")
+        I.specs["jinja2.nativetypes:native_concat"] = data_callee("concat")
 
     def setup(self, I, st):
-        self.tmpl = A.obj(st, E.Template, "template", fields={"environment": env_obj(st, is_async=False), "_module": None})
+        import jinja2.nativetypes as NT
+        self.env = env_obj(st, NT.NativeEnvironment, is_async=self.is_async)
+        self.tmpl = A.obj(st, NT.NativeTemplate, "template", fields={"environment": self.env, "root_render_func": sym("root_render_func", "obj")})
+        return [self.tmpl], {"v": sym("v", "obj")}
+
+
+class DefaultModule(FaultVC):
+    """`_module` (and every other attribute of the cached Template) keeps its pre-state when make_module raises."""
+
+    def __init__(self, is_async):
+        self.is_async = is_async
+        name = "_get_default_module_async" if is_async else "_get_default_module"
+        self.make = "make_module_async" if is_async else "make_module"
+        FaultVC.__init__(self, f"Template.{name}", f"jinja2.environment:Template.{name}")
+
+    def configure_more(self, I):
+        I.specs["Template." + self.make] = data_callee("make_module")
+
+    def setup(self, I, st):
+        from pyvc.extract import resolve
+        self.tmpl = engine_obj(st, E.Template, "template", {"environment": env_obj(st, is_async=self.is_async), "_module": None},
+                               resolve(self.target))
         return [self.tmpl], {}
+
+
+class MakeModule(FaultVC):
+    """make_module / make_module_async build fresh objects only."""
+
+    def __init__(self, is_async):
+        self.is_async = is_async
+        name = "make_module_async" if is_async else "make_module"
+        FaultVC.__init__(self, f"Template.{name}", f"jinja2.environment:Template.{name}")
+
+    def configure_more(self, I):
+        I.inline.add("jinja2.environment:TemplateModule.__init__")
+        I.specs["Template.new_context"] = A.abstract_fn("Template.new_context", returns="obj")
+        I.specs["call_obj"] = data_callee("root_render_func", result=lambda s, a: (fresh("piece", "str"),))
+
+        def getattr_obj(I_, st, args, kwargs, node):
+            o, name = args
+            if name == "environment":
+                return [(st, self.env)]
+            if name == "get_exported":
+                return [(st, BoundMethod(o, name))]
+            return [(st, fresh(name, "obj"))]
+
+        I.specs["getattr_obj"] = getattr_obj
+        I.specs["method_obj"] = lambda I_, st, args, kwargs, node: [(st, st.alloc(__import__("pyvc.values", fromlist=["HDict"]).HDict(items={})))]
+
+    def setup(self, I, st):
+        from pyvc.extract import resolve
+        self.env = env_obj(st, is_async=self.is_async)
+        self.tmpl = engine_obj(st, E.Template, "template", {"environment": self.env, "root_render_func": sym("root_render_func", "obj"), "name": sym("tname", "obj")},
+                               resolve(self.target))
+        return [self.tmpl], {}
+
+
+class LoadTemplate(FaultVC):
+    """Environment._load_template / get_template: the cache is written only after the loader returned."""
+
+    def __init__(self, method):
+        self.method = method
+        FaultVC.__init__(self, f"Environment.{method}", f"jinja2.environment:Environment.{method}")
+
+    def configure_more(self, I):
+        I.inline.add("jinja2.environment:Environment._load_template")
+        I.specs["Environment.join_path"] = A.abstract_fn("join_path", returns="obj")
+        I.specs["Environment.make_globals"] = A.abstract_fn("make_globals", returns="obj")
+        import weakref
+        I.specs[("fn", id(weakref.ref))] = A.abstract_fn("weakref.ref", returns="obj")
+        c = self
+
+        def method_obj(I_, st, args, kwargs, node):
+            recv, name = args[0], args[1]
+            if recv is c.loader and name == "load":
+                return data_callee("load")(I_, st, args[2:], kwargs, node)  # the loader and the template's module code
+            if recv is c.cache and name == "get":
+                st.trace.append(Event("read", "cache.get", list(args[2:]), lineno=getattr(node, "lineno", None)))
+                return [(st.fork(), None), (st, fresh("cached_template", "obj"))]
+            if name == "update":  # template.globals.update(globals): ChainMap of the cached template (documented in get_template)
+                return [(st, None)]
+            return None
+
+        I.specs["method_obj"] = method_obj
+
+        def getattr_obj(I_, st, args, kwargs, node):
+            o, name = args
+            if name in ("get", "load", "update"):
+                return [(st, BoundMethod(o, name))]
+            return [(st, fresh(name, "obj"))]
+
+        I.specs["getattr_obj"] = getattr_obj
+
+        def setitem_obj(I_, st, args, kwargs, node):
+            obj, idx, v = args
+            st.written.add(("cache", "*"))
+            st.trace.append(Event("write", "cache.__setitem__", [obj, idx, v], lineno=getattr(node, "lineno", None)))
+            return [(st, None)]
+
+        I.specs["setitem_obj"] = setitem_obj
+        not_a_template(I)
+
+    def setup(self, I, st):
+        self.loader, self.cache = sym("loader", "obj"), sym("cache", "obj")
+        self.env = env_obj(st, loader=self.loader, cache=self.cache, auto_reload=sym("auto_reload", "bool"))
+        if self.method == "get_template":
+            return [self.env, sym("name", "obj"), sym("parent", "obj"), sym("globals", "obj")], {}
+        return [self.env, sym("name", "obj"), sym("globals", "obj")], {}
+
+    def p_no_residue(self, pre, out):
+        if not out.raised:
+            return None
+        ok = not changed_state(pre, out.st) and not any(isinstance(i, str) for (i, _f) in out.st.written)
+        if not ok:
+            self.offender = (getattr(root(out.value), "site", None), None, out.value.origin)
+        return ok
+
+    posts = [("catch", FaultVC.p_catch), ("same_object", FaultVC.p_same_object), ("no_residue", p_no_residue)]
+
+
+def not_a_template(I):
+    def isinstance_obj(I_, st, args, kwargs, node):
+        v, cl = args
+        if cl == (E.Template,):
+            return [(st, False)]
+        return None
+    I.specs["isinstance_obj"] = isinstance_obj
 
 
 class HandleException(FaultVC):
     """Environment.handle_exception raises exactly the object returned by rewrite_traceback_stack."""
     fn = "Environment.handle_exception"
+    data_path_needed = False  # own postconditions: the handled exception is given, not raised by a callee
     target = "jinja2.environment:Environment.handle_exception"
 
     def configure_more(self, I):
@@ -574,6 +866,7 @@ class RewriteTraceback(FaultVC):
     """debug.rewrite_traceback_stack returns exc_value.with_traceback(..) of the object found in sys.exc_info()."""
     fn = "rewrite_traceback_stack"
     target = "jinja2.debug:rewrite_traceback_stack"
+    data_path_needed = False
     timeout_quick = 20000
 
     def configure_more(self, I):
@@ -645,6 +938,206 @@ class RewriteTraceback(FaultVC):
 
 
 # --------------------------------------------------------------------------------------------
+# TemplateStream, BlockReference, LoopContext / AsyncLoopContext, Macro.__call__
+# --------------------------------------------------------------------------------------------
+
+def loop_locals(fn):
+    """(havoc map of the names assigned inside the loops of fn, names of list-valued locals), read off the real source:
+    counters (assigned an int literal / augmented) are ints, everything else is arbitrary"""
+    import ast
+    from pyvc.extract import function_ast
+    node, _mod = function_ast(fn)
+    ints, lists, stored = set(), set(), set()
+    for sub in ast.walk(node):
+        if isinstance(sub, ast.Assign) and len(sub.targets) == 1 and isinstance(sub.targets[0], ast.Name):
+            if isinstance(sub.value, ast.Constant) and type(sub.value.value) is int:
+                ints.add(sub.targets[0].id)
+            if isinstance(sub.value, ast.List):
+                lists.add(sub.targets[0].id)
+        if isinstance(sub, ast.AnnAssign) and isinstance(sub.target, ast.Name) and isinstance(sub.value, ast.List):
+            lists.add(sub.target.id)
+        if isinstance(sub, (ast.While, ast.For)):
+            for x in ast.walk(sub):
+                if isinstance(x, ast.Name) and isinstance(x.ctx, ast.Store):
+                    stored.add(x.id)
+    return {n: ("int" if n in ints else "obj") for n in stored}, lists
+
+
+def abstract_list(st, h):
+    h.items, h.arr, h.n, h.k = None, fresh_arr("buf", "obj"), z3.Int(fresh_name("buf_n")), "obj"
+    st.assume(h.n >= 0)
+
+
+class BufferedGenerator(FaultVC):
+    """TemplateStream._buffered_generator: only the StopIteration of the exhausted render generator ends the stream."""
+    fn = "TemplateStream._buffered_generator"
+    target = "jinja2.environment:TemplateStream._buffered_generator"
+
+    def configure_more(self, I):
+        I.specs["next_obj"] = data_callee("next", returns="obj")
+        I.specs["str.join"] = lambda I_, st, args, kwargs, node: [(st, fresh("joined", "str"))]
+        inv = lambda ctx: [self.absorbed_only_documented(ctx.st)]  # noqa: E731
+        havoc, lists = loop_locals(E.TemplateStream._buffered_generator)
+
+        def heap(st, local):
+            for name in lists:  # the buffer(s): arbitrary content at an arbitrary iteration
+                if isinstance(local.get(name), Ref) and isinstance(st.get(local[name]), HList):
+                    abstract_list(st, st.get(local[name]))
+
+        q = "TemplateStream._buffered_generator"
+        I.loops[(q, 0)] = LoopSpec(inv, havoc=dict(havoc), heap=heap, name="fill_and_flush")
+        I.loops[(q, 1)] = LoopSpec(inv, havoc=dict(havoc), heap=heap, name="fill")
+
+    def setup(self, I, st):
+        from pyvc.extract import resolve
+        self.stream = engine_obj(st, E.TemplateStream, "stream", {"_gen": sym("gen", "obj")}, resolve(self.target))
+        return [self.stream, sym("size", "int")], {}
+
+
+class StreamNext(FaultVC):
+    fn = "TemplateStream.__next__"
+    target = "jinja2.environment:TemplateStream.__next__"
+
+    def configure_more(self, I):
+        I.specs["call_obj"] = data_callee("next")
+
+    def setup(self, I, st):
+        self.stream = engine_obj(st, E.TemplateStream, "stream", {"_gen": sym("gen", "obj"), "_next": sym("next_fn", "obj")})
+        return [self.stream], {}
+
+
+class StreamDump(FaultVC):
+    """TemplateStream.dump (file object given, with and without encoding): no handler, the finally clause swallows nothing."""
+    fn = "TemplateStream.dump"
+    target = "jinja2.environment:TemplateStream.dump"
+
+    def configure_more(self, I):
+        not_a_str(I)
+        import codecs
+        I.specs[("fn", id(codecs.getincrementalencoder))] = A.abstract_fn("getincrementalencoder", returns="obj")
+        I.specs[("fn", id(hasattr))] = lambda I_, st, args, kwargs, node: [(st.fork(), True), (st, False)]
+
+        def call_obj(I_, st, args, kwargs, node):
+            return [(st, fresh("encoder", "obj"))]
+
+        I.specs["call_obj"] = call_obj
+
+        def getattr_obj(I_, st, args, kwargs, node):
+            return [(st, BoundMethod(args[0], args[1]))]
+
+        I.specs["getattr_obj"] = getattr_obj
+
+        def method_obj(I_, st, args, kwargs, node):
+            recv, name = args[0], args[1]
+            if name == "writelines":  # consumes the stream: the data code runs here
+                return data_callee("next", returns=None)(I_, st, args[2:], kwargs, node)
+            return [(st, fresh(name, "obj"))]
+
+        I.specs["method_obj"] = method_obj
+
+        def for_abstract(I_, n, st, fr, itv):
+            """`for x in <stream>`: the stream raises (data), is exhausted, or gives one more item"""
+            out = [(s, __import__("pyvc.interp", fromlist=["Ctl"]).Ctl("raise", r.exc)) for s, r in [data_raise(st, "next", n)]]
+            s1 = st.fork()
+            for s2, r in I_.assign(n.target, fresh("chunk", "str"), s1, fr):
+                out.extend((s3, c if c.kind not in ("continue", "break") else __import__("pyvc.interp", fromlist=["OK"]).OK) for s3, c in I_.exec_block(n.body, s2, fr))
+            out.append((st, __import__("pyvc.interp", fromlist=["OK"]).OK))
+            return out
+
+        I.specs["for_abstract"] = for_abstract
+
+    def __init__(self, encoding):
+        self.encoding = encoding
+        FaultVC.__init__(self, "TemplateStream.dump" + ("[encoding]" if encoding else ""))
+
+    def setup(self, I, st):
+        self.stream = engine_obj(st, E.TemplateStream, "stream", {"_gen": sym("gen", "obj"), "_next": sym("next_fn", "obj")})
+        return [self.stream, sym("fp", "obj"), ("utf-8" if self.encoding else None)], {}
+
+
+class BlockCall(FaultVC):
+    def __init__(self, is_async):
+        self.is_async = is_async
+        FaultVC.__init__(self, "BlockReference.__call__" + ("[async]" if is_async else ""), "jinja2.runtime:BlockReference.__call__")
+
+    def configure_more(self, I):
+        I.inline.add("jinja2.runtime:BlockReference._async_call")
+        I.specs["call_obj"] = data_callee("block", result=lambda s, a: (fresh("piece", "str"),))
+        I.specs["Environment.concat"] = data_callee("concat", returns="str")
+        import markupsafe
+        I.specs[("fn", id(markupsafe.Markup))] = A.abstract_fn("Markup", returns="str")
+
+    def setup(self, I, st):
+        env = env_obj(st, is_async=self.is_async)
+        ectx = A.obj(st, jinja2.nodes.EvalContext, "eval_ctx", fields={"autoescape": sym("autoescape", "bool")})
+        ctx = A.obj(st, R.Context, "context", fields={"environment": env, "eval_ctx": ectx})
+        stack = st.alloc(HList(items=[sym("block_fn", "obj")]), initial=True)
+        self.ref = A.obj(st, R.BlockReference, "block", fields={"name": "b", "_context": ctx, "_stack": stack, "_depth": 0})
+        return [self.ref], {}
+
+
+class LoopCtx(FaultVC):
+    """LoopContext / AsyncLoopContext: a data exception out of the wrapped iterator leaves the loop object unchanged."""
+
+    def __init__(self, cls, method, sites=None):
+        self.cls, self.method = cls, method
+        self.expect_sites = sites
+        FaultVC.__init__(self, f"{cls.__name__}.{method}", f"jinja2.runtime:{cls.__name__}.{method}")
+
+    def configure_more(self, I):
+        I.specs["next_obj"] = data_callee("next")
+        I.specs["len_obj"] = data_callee("len", returns="int")
+        I.inline.add("jinja2.runtime:LoopContext.index")
+        I.inline.add("jinja2.runtime:LoopContext._to_iterator")
+        I.specs["jinja2.runtime:AsyncLoopContext._to_iterator"] = A.abstract_fn("auto_aiter", returns="obj")
+        I.specs["jinja2.async_utils:auto_aiter"] = A.abstract_fn("auto_aiter", returns="obj")
+
+        def getattr_obj(I_, st, args, kwargs, node):
+            return [(st, BoundMethod(args[0], args[1]))]
+
+        I.specs["getattr_obj"] = getattr_obj
+        I.specs["method_obj"] = lambda I_, st, args, kwargs, node: data_callee("next")(I_, st, args[2:], kwargs, node)
+
+        def list_spec(I_, st, args, kwargs, node):
+            if len(args) == 1 and isinstance(args[0], Sym) and args[0].k == "obj":
+                return data_callee("iter", result=lambda s, a: s.alloc(HList(arr=fresh_arr("lst", "obj"), n=z3.Int(fresh_name("lst_n")), k="obj")))(I_, st, args, kwargs, node)
+            return models.instantiate(I_, st, list, args, kwargs, node)
+
+        I.specs[("fn", id(list))] = list_spec
+
+    def setup(self, I, st):
+        from pyvc.extract import resolve
+        it = sym("iterator", "obj")
+        if self.cls is R.AsyncLoopContext and self.method == "length":
+            seqv = A.sseq(st, "rest", "obj")
+            it = st.alloc(HIter(seqv, 0), initial=True)  # the comprehension over the async iterator needs a sequence model (no raise there)
+        fields = {"_iterable": sym("iterable", "obj"), "_iterator": it, "_after": sym("after", "obj"), "index0": sym("index0", "int"),
+                  "_length": None, "_current": sym("current", "obj"), "_before": sym("before", "obj"), "_undefined": sym("undefined", "obj")}
+        fns = [resolve(self.target)]
+        self.loop = engine_obj(st, self.cls, "loop", fields, *fns)
+        return [self.loop], {}
+
+
+class MacroCallFrame(FaultVC):
+    """Macro.__call__: when the macro body raises, the Macro object and the caller's argument objects are unchanged."""
+    fn = "Macro.__call__"
+    target = "jinja2.runtime:Macro.__call__"
+
+    def configure_more(self, I):
+        I.specs["Macro._invoke"] = data_callee("call")
+        I.specs["getattr_obj"] = lambda I_, st, args, kwargs, node: [(st, fresh(args[1], "obj"))]  # EvalContext.autoescape
+
+    def setup(self, I, st):
+        env = env_obj(st, is_async=False)
+        params = st.alloc(HList(items=["a", "b", "c"]), initial=True)
+        self.macro = A.obj(st, R.Macro, "macro", fields={
+            "_environment": env, "_func": sym("func", "obj"), "_argument_count": 3, "name": "m", "arguments": params,
+            "catch_kwargs": sym("catch_kwargs", "bool"), "catch_varargs": sym("catch_varargs", "bool"), "caller": sym("caller", "bool"),
+            "explicit_caller": False, "_default_autoescape": sym("autoescape", "bool")})
+        return [self.macro, sym("x", "obj")], {"b": sym("y", "obj"), "extra": sym("z", "obj")}
+
+
+# --------------------------------------------------------------------------------------------
 # native replay: the real functions on data objects that raise a probe exception at one site
 # --------------------------------------------------------------------------------------------
 
@@ -683,7 +1176,7 @@ class Faulty:
         return "item"
 
     def __call__(self, *a, **k):
-        self._maybe("call", "root_render_func", "concat", "make_module")
+        self._maybe("call", "root_render_func", "concat", "make_module", "next", "block")
         return "called"
 
     def __len__(self):
@@ -750,13 +1243,26 @@ def native_call(fn, site, exc):
     if fn.startswith("Template."):
         mode = {"Template.render": "render", "Template.render[async]": "render", "Template.render_async": "render_async",
                 "Template.generate": "generate", "Template.generate[async]": "generate", "Template.generate_async": "generate_async",
-                "Template._get_default_module": "module"}[fn]
+                "Template._get_default_module": "module", "Template._get_default_module_async": "module",
+                "Template.make_module": "make_module", "Template.make_module_async": "make_module"}[fn]
         aenv = jinja2.Environment(enable_async=("async" in fn))
-        if mode == "module":
+        if mode in ("module", "make_module"):
             t = aenv.from_string("{% set x = d() %}")
             t.globals["d"] = d
-            AFTER[id(d)] = lambda got: None if (got[0] == "return" or t._module is None) else f"_module was assigned ({t._module!r}) although make_module raised"
-            return (lambda: t._get_default_module()), d
+            before = dict(vars(t))
+
+            def after_module(got):
+                if got[0] == "return":
+                    return None
+                now = vars(t)
+                diff = sorted(k for k in set(before) | set(now) if before.get(k, AFTER) is not now.get(k, AFTER))
+                return f"attributes of the cached Template changed although the module code raised: {diff}" if diff else None
+
+            AFTER[id(d)] = after_module
+            meth = fn.split(".", 1)[1]
+            if aenv.is_async:
+                return (lambda: asyncio.run(getattr(t, meth)())), d
+            return (lambda: getattr(t, meth)()), d
         t = aenv.from_string("a{{ d() }}b")
 
         def after(got):
@@ -780,6 +1286,39 @@ def native_call(fn, site, exc):
             return [x async for x in t.generate_async(d=d)]
 
         return (lambda: asyncio.run(agen())), d
+    if fn.startswith("TemplateStream."):
+        t = env.from_string("a{{ 1 }}b{{ d() }}c{{ 2 }}")
+        if fn == "TemplateStream._buffered_generator":
+            def run_buffered():
+                st = t.stream(d=d)
+                st.enable_buffering(3)
+                return "".join(st)
+            return run_buffered, d
+        if fn == "TemplateStream.__next__":
+            return (lambda: "".join(t.stream(d=d))), d
+
+        def run_dump():
+            import io
+            if "encoding" in fn:
+                fp = io.BytesIO()
+                t.stream(d=d).dump(fp, "utf-8")
+            else:
+                fp = io.StringIO()
+                t.stream(d=d).dump(fp)
+            return fp.getvalue()
+        return run_dump, d
+    if fn == "do_last":
+        return (lambda: F.do_last(env, d)), d
+    if fn == "do_first":
+        aenv = jinja2.Environment(enable_async=True)
+        return (lambda: asyncio.run(F.do_first(aenv, d))), d
+    if fn.startswith("NativeTemplate."):
+        import jinja2.nativetypes as NT
+        nenv = NT.NativeEnvironment(enable_async=("async" in fn))
+        t = nenv.from_string("a{{ d() }}b")
+        if fn == "NativeTemplate.render_async":
+            return (lambda: asyncio.run(t.render_async(d=d))), d
+        return (lambda: t.render(d=d)), d
     if fn == "Environment.handle_exception" or fn == "rewrite_traceback_stack":
         def run():
             try:
@@ -844,6 +1383,24 @@ def native_call(fn, site, exc):
                 x = property(lambda self: d._maybe(site))
             return (lambda: F.do_attr(env, WithProperty(), "x")), d
         return (lambda: F.do_attr(env, d, "x")), d
+    if fn in ("Environment._load_template", "Environment.get_template"):
+        class FlakyLoader(jinja2.BaseLoader):
+            def get_source(self, environment, template):
+                d._maybe("load")
+                return "T:" + template, None, None
+        e = jinja2.Environment(loader=FlakyLoader())
+        before = dict(e.cache.items())
+
+        def after_load(got):
+            if got[0] == "return":
+                return None
+            now = dict(e.cache.items())
+            return None if now == before else f"the template cache was written although the loader raised: {sorted(map(str, now))}"
+
+        AFTER[id(d)] = after_load
+        if fn.endswith("_load_template"):
+            return (lambda: e._load_template("a", None)), d
+        return (lambda: e.get_template("a")), d
     if fn == "Environment.select_template":
         class L(jinja2.BaseLoader):
             def get_source(self, environment, template):
@@ -863,8 +1420,16 @@ def probe_class(name):
 def native_replay(w):
     """Replay a witness on the real code: violated iff a data exception that is no documented signal does not come out
     as the same object (or the engine state is changed / unusable afterwards)."""
+    if w.get("kind") == "history":
+        return NativeHistory().replay(w)
     fn, site, name = w["function"], w.get("site"), w.get("exc") or "Boom"
-    sites = [site] if site not in (None, "handled") else ["call"]
+    if fn not in NATIVE_SITES:
+        # no dedicated harness (BlockReference, LoopContext, Macro, loaders ...): these are reached through templates
+        for r in native_history("quick", 0):
+            if r.status == "refuted":
+                return (True, f"{fn}: {r.detail}")
+        return (False, f"{fn}: no fault sequence of the history stand-in fails")
+    sites = [site] if site in NATIVE_SITES[fn] else list(NATIVE_SITES[fn])
     if fn == "do_attr" and site == "getattr":
         sites = ["getattr", "getattr:property"]
     last = (False, f"{fn}: nothing to run")
@@ -887,7 +1452,7 @@ def native_replay_site(fn, site, name):
     if not fired(d):
         return (False, f"{fn}: the fault at site {site!r} was not reached natively")
     allowed = allowed_for(fn, site.split(":")[0])
-    if fn.startswith("Template."):
+    if fn.startswith(("Template.", "TemplateStream.", "NativeTemplate.")):
         allowed = allowed + (StopIteration,)  # inside a template the call goes through Context.call (its documented signal)
     documented = any(issubclass(cls, a) for a in allowed)
     same = got[0] == "raise" and got[1] is exc
@@ -911,6 +1476,8 @@ def native_matrix(tier, seed):
         n = 0
         for site in sites:
             for pname in ("Boom", "BaseBoom", "RuntimeError", "ValueError", "KeyError", "AttributeError", "TypeError", "StopIteration", "IndexError", "OverflowError", "ZeroDivisionError"):
+                if (fn, pname) in NATIVE_SKIP:
+                    continue
                 n += 1
                 v, d = native_replay_site(fn, site, pname)
                 if v:
@@ -924,10 +1491,18 @@ def native_matrix(tier, seed):
     return res
 
 
+# a coroutine cannot let StopIteration out (PEP 479: the interpreter turns it into RuntimeError) - not a property of jinja
+NATIVE_SKIP = {("do_first", "StopIteration")}
+
 NATIVE_SITES = {
     "Template.render": ["call"], "Template.render[async]": ["call"], "Template.render_async": ["call"],
     "Template.generate": ["call"], "Template.generate[async]": ["call"], "Template.generate_async": ["call"],
-    "Template._get_default_module": ["call"],
+    "Template._get_default_module": ["call"], "Template._get_default_module_async": ["call"],
+    "Template.make_module": ["call"], "Template.make_module_async": ["call"],
+    "Environment._load_template": ["load"], "Environment.get_template": ["load"],
+    "TemplateStream._buffered_generator": ["call"], "TemplateStream.__next__": ["call"], "TemplateStream.dump": ["call"],
+    "TemplateStream.dump[encoding]": ["call"], "do_last": ["reversed"], "do_first": ["iter", "next"],
+    "NativeTemplate.render": ["call"], "NativeTemplate.render[async]": ["call"], "NativeTemplate.render_async": ["call"],
     "Environment.handle_exception": ["call"], "rewrite_traceback_stack": ["call"],
     "Environment.getattr": ["getattr", "getitem"], "Environment.getitem": ["getitem", "getattr", "str"],
     "SandboxedEnvironment.getattr": ["getattr", "getitem"], "SandboxedEnvironment.getitem": ["getitem", "getattr", "str"],
@@ -936,6 +1511,436 @@ NATIVE_SITES = {
     "do_random": ["len", "getitem"], "do_int": ["int", "float"], "do_float": ["float"], "do_attr": ["getattr", "getattr:property"],
     "Environment.select_template": ["load"],
 }
+
+
+# --------------------------------------------------------------------------------------------
+# C38.handlers: every `except` clause of src/jinja2/*.py (AST scan)
+# --------------------------------------------------------------------------------------------
+# A handler that unconditionally re-raises the exception it caught (bare `raise` / `raise <its name>` as last statement, no
+# return / yield / continue / break in its body) cannot lose a data exception and needs no entry.  Every other handler must be
+# listed here with exactly the classes it catches, and its function must have a justification below: either a contract of
+# this module (then C38.catch / C38.same_object cover it) or the reason why its try body runs no data code / why absorbing
+# is the documented behaviour.  A new handler, a widened clause or a handler in a new function fails C38.handlers.
+HANDLER_CLASSES = {
+    "async_utils:_IteratorToAsyncIterator.__anext__": ['StopIteration'],
+    "bccache:Bucket.load_bytecode": ['Exception', 'EOFError,TypeError,ValueError'],
+    "bccache:FileSystemBytecodeCache._get_default_cache_dir": ['OSError', 'OSError'],
+    "bccache:FileSystemBytecodeCache.load_bytecode": ['FileNotFoundError,IsADirectoryError,PermissionError'],
+    "bccache:FileSystemBytecodeCache.dump_bytecode.remove_silent": ['OSError'],
+    "bccache:FileSystemBytecodeCache.dump_bytecode": ['OSError'],
+    "bccache:FileSystemBytecodeCache.clear": ['OSError'],
+    "bccache:MemcachedBytecodeCache.load_bytecode": ['Exception'],
+    "bccache:MemcachedBytecodeCache.dump_bytecode": ['Exception'],
+    "compiler:find_undeclared": ['VisitorExit'],
+    "compiler:CodeGenerator.blockvisit": ['CompilerExit'],
+    "compiler:CodeGenerator.macro_body": ['IndexError', 'IndexError'],
+    "compiler:CodeGenerator.visit_Output": ['Exception,nodes.Impossible'],
+    "compiler:CodeGenerator.visit_TemplateData": ['nodes.Impossible'],
+    "compiler:CodeGenerator.visit_EvalContextModifier": ['nodes.Impossible'],
+    "debug:fake_traceback": ['BaseException'],
+    "debug:get_template_locals": ['ValueError'],
+    "environment:Environment.getitem": ['AttributeError,LookupError,TypeError', 'Exception', 'AttributeError'],
+    "environment:Environment.getattr": ['AttributeError', 'AttributeError,LookupError,TypeError'],
+    "environment:Environment._filter_test_common": ['Exception'],
+    "environment:Environment.parse": ['TemplateSyntaxError'],
+    "environment:Environment.lex": ['TemplateSyntaxError'],
+    "environment:Environment.compile": ['TemplateSyntaxError'],
+    "environment:Environment.compile_expression": ['TemplateSyntaxError'],
+    "environment:Environment.compile_templates": ['TemplateSyntaxError'],
+    "environment:Environment.select_template": ['TemplateNotFound,UndefinedError'],
+    "environment:Template.render": ['Exception'],
+    "environment:Template.render_async": ['Exception'],
+    "environment:Template.generate": ['Exception'],
+    "environment:Template.generate_async": ['Exception'],
+    "environment:TemplateStream._buffered_generator": ['StopIteration'],
+    "exceptions:TemplateSyntaxError.__str__": ['IndexError'],
+    "ext:_CommentFinder.find_backwards": ['ValueError'],
+    "ext:babel_extract": ['TemplateSyntaxError'],
+    "filters:_min_or_max": ['StopIteration'],
+    "filters:sync_do_first": ['StopIteration'],
+    "filters:do_first": ['StopAsyncIteration'],
+    "filters:do_last": ['StopIteration'],
+    "filters:do_random": ['IndexError'],
+    "filters:do_int": ['OverflowError,TypeError,ValueError', 'OverflowError,TypeError,ValueError'],
+    "filters:do_float": ['OverflowError,TypeError,ValueError'],
+    "filters:do_reverse": ['TypeError', 'TypeError'],
+    "filters:do_attr": ['AttributeError'],
+    "filters:prepare_map": ['LookupError'],
+    "filters:prepare_select_or_reject": ['LookupError', 'LookupError'],
+    "lexer:TokenStream.__next__": ['StopIteration'],
+    "lexer:Lexer.wrap": ['Exception'],
+    "loaders:FileSystemLoader.get_source.uptodate": ['OSError'],
+    "loaders:_get_zipimporter_files": ['AttributeError', 'AttributeError'],
+    "loaders:PackageLoader.get_source": ['OSError'],
+    "loaders:PrefixLoader.get_loader": ['KeyError,ValueError'],
+    "loaders:PrefixLoader.get_source": ['TemplateNotFound'],
+    "loaders:PrefixLoader.load": ['TemplateNotFound'],
+    "loaders:ChoiceLoader.get_source": ['TemplateNotFound'],
+    "loaders:ChoiceLoader.load": ['TemplateNotFound'],
+    "loaders:ModuleLoader.load": ['ImportError'],
+    "nativetypes:native_concat": ['MemoryError,RecursionError,SyntaxError,TypeError,ValueError'],
+    "nativetypes:NativeTemplate.render": ['Exception'],
+    "nativetypes:NativeTemplate.render_async": ['Exception'],
+    "nodes:Node.iter_fields": ['AttributeError'],
+    "nodes:BinExpr.as_const": ['Exception'],
+    "nodes:UnaryExpr.as_const": ['Exception'],
+    "nodes:Dict.as_const": ['Exception'],
+    "nodes:CondExpr.as_const": ['Exception'],
+    "nodes:args_as_const": ['Exception', 'Exception'],
+    "nodes:_FilterTestCommon.as_const": ['Exception'],
+    "nodes:Getitem.as_const": ['Exception'],
+    "nodes:Getattr.as_const": ['Exception'],
+    "nodes:Concat.as_const": ['Exception'],
+    "nodes:Compare.as_const": ['Exception'],
+    "nodes:And.as_const": ['Exception'],
+    "nodes:Or.as_const": ['Exception'],
+    "optimizer:Optimizer.generic_visit": ['nodes.Impossible'],
+    "runtime:Context.super": ['LookupError'],
+    "runtime:Context.get": ['KeyError'],
+    "runtime:Context.call": ['StopIteration'],
+    "runtime:LoopContext.length": ['TypeError'],
+    "runtime:AsyncLoopContext.length": ['TypeError'],
+    "runtime:AsyncLoopContext._peek_next": ['StopAsyncIteration'],
+    "runtime:Macro.__call__": ['KeyError'],
+    "sandbox:SandboxedEnvironment.getitem": ['LookupError,TypeError', 'Exception', 'AttributeError'],
+    "sandbox:SandboxedEnvironment.getattr": ['AttributeError', 'LookupError,TypeError'],
+    "tests:test_sequence": ['Exception'],
+    "tests:test_iterable": ['TypeError'],
+    "utils:import_string": ['AttributeError,ImportError'],
+    "utils:LRUCache.get": ['KeyError'],
+    "utils:LRUCache.setdefault": ['KeyError'],
+    "utils:LRUCache.__getitem__": ['ValueError'],
+    "utils:LRUCache.__delitem__": ['ValueError'],
+    "utils:Namespace.__getattribute__": ['KeyError'],
+}
+
+_COMPILE = "compile time (no template data exists yet): a failed constant folding (`Impossible`) falls back to run-time evaluation, where the exception of the data propagates"
+HANDLER_WHY = {
+    # -- data path: under contract in this module
+    "async_utils:_IteratorToAsyncIterator.__anext__": "contract:_IteratorToAsyncIterator.__anext__",
+    "environment:Environment.getitem": "contract:Environment.getitem", "environment:Environment.getattr": "contract:Environment.getattr",
+    "environment:Environment.select_template": "contract:Environment.select_template",
+    "environment:Template.render": "contract:Template.render", "environment:Template.render_async": "contract:Template.render_async",
+    "environment:Template.generate": "contract:Template.generate", "environment:Template.generate_async": "contract:Template.generate_async",
+    "environment:TemplateStream._buffered_generator": "contract:TemplateStream._buffered_generator",
+    "filters:_min_or_max": "contract:_min_or_max", "filters:sync_do_first": "contract:sync_do_first", "filters:do_first": "contract:do_first",
+    "filters:do_last": "contract:do_last", "filters:do_random": "contract:do_random", "filters:do_int": "contract:do_int",
+    "filters:do_float": "contract:do_float", "filters:do_reverse": "contract:do_reverse", "filters:do_attr": "contract:do_attr",
+    "nativetypes:NativeTemplate.render": "contract:NativeTemplate.render", "nativetypes:NativeTemplate.render_async": "contract:NativeTemplate.render_async",
+    "runtime:Context.call": "contract:Context.call", "runtime:LoopContext.length": "contract:LoopContext.length",
+    "runtime:AsyncLoopContext.length": "contract:AsyncLoopContext.length", "runtime:AsyncLoopContext._peek_next": "contract:AsyncLoopContext._peek_next",
+    "runtime:Macro.__call__": "contract:Macro.__call__",
+    "sandbox:SandboxedEnvironment.getitem": "contract:SandboxedEnvironment.getitem", "sandbox:SandboxedEnvironment.getattr": "contract:SandboxedEnvironment.getattr",
+    "tests:test_sequence": "contract:test_sequence", "tests:test_iterable": "contract:test_iterable",
+    # -- no data code in the try body / documented absorption
+    "bccache:": "bytecode cache files and memcached clients (C27): I/O and unpickling of cache entries, no template data is evaluated",
+    "compiler:": _COMPILE + "; VisitorExit / CompilerExit / IndexError are the compiler's own control flow",
+    "nodes:": _COMPILE,
+    "optimizer:": _COMPILE,
+    "debug:fake_traceback": "executes the one-line `raise __jinja_exception__` stub to fabricate a traceback entry for the exception being "
+                            "rewritten; the caught object is that exception, which rewrite_traceback_stack returns (contract rewrite_traceback_stack)",
+    "debug:get_template_locals": "parsing of the compiler's own local variable names (l_<depth>_<name>)",
+    "environment:Environment._filter_test_common": "the try body calls Undefined._fail_with_undefined_error of an undefined filter / test NAME to "
+                                                   "borrow its message; a TemplateRuntimeError is raised in any case, no data callee runs",
+    "environment:Environment.parse": "TemplateSyntaxError of the parser, re-raised through handle_exception (contract Environment.handle_exception)",
+    "environment:Environment.lex": "TemplateSyntaxError of the lexer, re-raised through handle_exception",
+    "environment:Environment.compile": "TemplateSyntaxError of parser / compiler, re-raised through handle_exception",
+    "environment:Environment.compile_expression": "TemplateSyntaxError, re-raised through handle_exception",
+    "environment:Environment.compile_templates": "TemplateSyntaxError while precompiling templates: re-raised unless ignore_errors (documented parameter)",
+    "exceptions:TemplateSyntaxError.__str__": "IndexError of indexing the template source lines while formatting the message",
+    "ext:": "compile-time extraction of translatable strings (token / comment parsing, TemplateSyntaxError with `silent`)",
+    "filters:prepare_map": "IndexError of indexing the filter's own argument tuple, turned into FilterArgumentError (documented)",
+    "filters:prepare_select_or_reject": "IndexError of indexing the filter's own argument tuple; the second try body only defines a function",
+    "lexer:": "tokenising the template source (C39/C01): StopIteration of the lexer's own generator, errors of literal conversion become TemplateSyntaxError",
+    "loaders:": "template lookup (C28/C33): OSError / missing package data / unknown prefix are translated into TemplateNotFound or tried on the next "
+                "loader, as the loader API documents; data exceptions of a loaded template's code pass through (contract Environment._load_template)",
+    "nativetypes:native_concat": "literal_eval of the rendered TEXT (C34): 'if the result can be parsed ... otherwise the string is returned'; no data callee runs",
+    "nodes:Node.iter_fields": "AttributeError of a node field that is not set (compile time)",
+    "runtime:Context.super": "LookupError of the context's own block table (dict / list of compiled block functions)",
+    "runtime:Context.get": "KeyError of Context.__getitem__, which raises it for a name missing from the context's own dicts",
+    "runtime:make_logging_undefined.LoggingUndefined._fail_with_undefined_error": "re-raises the caught object (`raise e`) after logging it (C21)",
+    "utils:import_string": "import of a dotted name given by the application (extensions), re-raised unless `silent`",
+    "utils:LRUCache.": "KeyError / ValueError of the cache's own dict and deque (C26)",
+    "utils:Namespace.__getattribute__": "KeyError of the namespace's own dict becomes AttributeError (attribute protocol)",
+}
+
+
+def handler_reraises(h):
+    import ast
+    last = h.body[-1]
+    if not (isinstance(last, ast.Raise) and (last.exc is None or (isinstance(last.exc, ast.Name) and last.exc.id == h.name and last.cause is None))):
+        return False
+    for stmt in h.body:
+        for sub in ast.walk(stmt):
+            if isinstance(sub, (ast.Return, ast.Yield, ast.YieldFrom, ast.Continue, ast.Break)):
+                return False
+    return True
+
+
+def scan_handlers():
+    """{module:qualname: [sorted class names of each non-re-raising handler, in source order]} over src/jinja2/*.py"""
+    import ast
+    import glob
+    import os
+    root_dir = os.path.dirname(jinja2.__file__)
+    found = {}
+    for path in sorted(glob.glob(os.path.join(root_dir, "*.py"))):
+        mod = os.path.basename(path)[:-3]
+        tree = ast.parse(open(path, encoding="utf-8").read())
+
+        def walk(node, qual):
+            for c in ast.iter_child_nodes(node):
+                q = qual + [c.name] if isinstance(c, (ast.FunctionDef, ast.AsyncFunctionDef, ast.ClassDef)) else qual
+                if isinstance(c, ast.Try):
+                    for h in c.handlers:
+                        if handler_reraises(h):
+                            continue
+                        if h.type is None:
+                            cl = "<bare>"
+                        else:
+                            els = h.type.elts if isinstance(h.type, ast.Tuple) else [h.type]
+                            cl = ",".join(sorted(ast.unparse(e) for e in els))
+                        found.setdefault(f"{mod}:{'.'.join(qual) or '<module>'}", []).append((cl, h.lineno))
+                walk(c, q)
+
+        walk(tree, [])
+    return found
+
+
+def why_for(key):
+    if key in HANDLER_WHY:
+        return HANDLER_WHY[key]
+    best = None
+    for k, v in HANDLER_WHY.items():
+        if (k.endswith(":") or k.endswith(".")) and key.startswith(k) and (best is None or len(k) > len(best[0])):
+            best = (k, v)
+    return best[1] if best else None
+
+
+def handler_table(task, tier, seed):
+    res = []
+    found = scan_handlers()
+    contracts = {t.fn for t in TASKS if isinstance(t, FaultVC)}
+    for key in sorted(set(found) | set(HANDLER_CLASSES)):
+        got = [c for c, _ln in found.get(key, [])]
+        want = HANDLER_CLASSES.get(key)
+        why = why_for(key)
+        nm = f"C38.handlers.{key.replace(':', '.')}"
+        wit = {"kind": "handler", "handler": key, "classes": got, "lines": [ln for _c, ln in found.get(key, [])]}
+        if want is None:
+            res.append(Res(nm, "refuted", "table", 0, f"unlisted `except` clause(s) {got} at line(s) {wit['lines']}: a handler that does not re-raise "
+                                                      "must be a listed, justified catch", "table", wit))
+        elif got != want:
+            res.append(Res(nm, "refuted", "table", 0, f"`except` clauses changed: listed {want}, found {got} (lines {wit['lines']})", "table", wit))
+        elif why is None:
+            res.append(Res(nm, "error", "table", 0, "listed handler without justification", "table"))
+        elif why.startswith("contract:") and why[len("contract:"):] not in contracts:
+            res.append(Res(nm, "error", "table", 0, f"justified by a contract that does not exist: {why}", "table"))
+        else:
+            res.append(Res(nm, "discharged", "table", 0, why[:200], "table"))
+    return res
+
+
+class HandlerTable(Task):
+    kind = "table"
+    prop = "C38"
+    name = "C38.handlers"
+
+    def run(self, tier, seed):
+        return handler_table(self, tier, seed)
+
+    def replay(self, w):
+        """a changed / new handler is looked for natively with the history stand-in and the fault matrix"""
+        for r in native_history("quick", 0) + native_matrix("quick", 0):
+            if r.status == "refuted":
+                return (True, f"{w.get('handler')}: {r.name}: {r.detail}")
+        return (False, f"{w.get('handler')}: no native fault injection fails")
+
+    def finding_key(self, res):
+        w = res.witness or {}
+        return f"{w.get('handler')}:{'|'.join(w.get('classes', []))}"
+
+
+# --------------------------------------------------------------------------------------------
+# native history stand-in: a raising render followed by clean renders of the whole template family
+# --------------------------------------------------------------------------------------------
+HISTORY_TEMPLATES = {
+    "lib": "{% set v = probe('lib') %}{% macro show(x) %}[{{ v }}:{{ x }}:{{ probe('macro') }}]{% endmacro %}lib-body",
+    "main": "{% import 'lib' as lib %}{{ lib.show(1) }}",
+    "other": "{% from 'lib' import show %}<{{ show(2) }}>",
+    "incl": "{% include 'lib' without context %}!",
+    "incl_ctx": "{% include 'lib' %}?",
+    "base": "<{% block body %}base {{ probe('base') }}{% endblock %}|{% block tail %}t{% endblock %}>",
+    "child": "{% extends 'base' %}{% block body %}child {{ probe('child') }} {{ super() }}{% endblock %}",
+    "loop": "{% for x in seq() %}{{ loop.index }}/{{ loop.length }}:{{ x }}{% if not loop.last %},{% endif %}{% endfor %}",
+    "page": "head {{ probe('a') }}|{{ obj.attr }}|{{ obj['k'] }}|{{ obj }}|{{ probe('b') }} tail",
+}
+
+
+class Clock:
+    """counts the data events of one render and raises a private exception object at the k-th"""
+
+    def __init__(self, fail_at=None):
+        self.fail_at, self.n, self.raised = fail_at, 0, None
+
+    def tick(self, what):
+        self.n += 1
+        if self.n == self.fail_at:
+            self.raised = Boom(f"event {self.n}: {what}")
+            raise self.raised
+
+
+def history_env(enable_async, clock_box):
+    env = jinja2.Environment(loader=jinja2.DictLoader(HISTORY_TEMPLATES), enable_async=enable_async)
+
+    class Obj:
+        @property
+        def attr(self):
+            clock_box[0].tick("attr")
+            return "A"
+
+        def __getitem__(self, key):
+            clock_box[0].tick("item")
+            return "I"
+
+        def __str__(self):
+            clock_box[0].tick("str")
+            return "S"
+
+    def probe(what):
+        clock_box[0].tick("call " + what)
+        return "ok"
+
+    def seq():
+        for x in "ab":
+            clock_box[0].tick("iter")
+            yield x
+
+    env.globals.update(probe=probe, seq=seq, obj=Obj())
+    return env
+
+
+def history_ways(enable_async):
+    import asyncio
+
+    def buffered(n):
+        def run(t):
+            st = t.stream()
+            st.enable_buffering(n)
+            return "".join(st)
+        run.__name__ = f"stream_buffered_{n}"
+        return run
+
+    def dump(t):
+        import io
+        fp = io.BytesIO()
+        t.stream().dump(fp, "utf-8")
+        return fp.getvalue().decode("utf-8")
+
+    ways = [("render", lambda t: t.render()), ("generate", lambda t: "".join(t.generate())), ("stream", lambda t: "".join(t.stream())),
+            ("stream_buffered_2", buffered(2)), ("stream_buffered_3", buffered(3)), ("stream_buffered_5", buffered(5)), ("stream_dump", dump)]
+    if enable_async:
+        async def agen(t):
+            return "".join([x async for x in t.generate_async()])
+        ways = ways[:2] + [("stream_buffered_3", buffered(3)), ("render_async", lambda t: asyncio.run(t.render_async())), ("generate_async", lambda t: asyncio.run(agen(t)))]
+    return ways
+
+
+def history_case(enable_async, first, way_name, k, warm, expected=None):
+    """-> list of problems of one fault sequence"""
+    ways = dict(history_ways(enable_async))
+    box = [Clock()]
+    if expected is None:
+        ref = history_env(enable_async, box)
+        expected = {n: ref.get_template(n).render() for n in HISTORY_TEMPLATES}
+    env = history_env(enable_async, box)
+    problems = []
+    if warm:
+        for n in HISTORY_TEMPLATES:
+            env.get_template(n).render()
+    box[0] = clock = Clock(fail_at=k)
+    try:
+        out = ways[way_name](env.get_template(first))
+    except Boom as e:
+        if e is not clock.raised:
+            problems.append("a different exception object was raised")
+    except BaseException as e:  # noqa: B902
+        problems.append(f"raised {type(e).__name__}: {e} instead of the data's exception")
+    else:
+        if clock.raised is not None:
+            problems.append(f"the data's exception ({clock.raised}) was lost, output {out!r}")
+        elif out != expected[first]:
+            problems.append(f"clean output {out!r} != {expected[first]!r}")
+    box[0] = Clock()
+    for n in HISTORY_TEMPLATES:  # the data is healthy again: every family member renders as in a fresh environment
+        try:
+            got = env.get_template(n).render()
+        except BaseException as e:  # noqa: B902
+            problems.append(f"later clean render of {n!r} raised {type(e).__name__}: {e}")
+            continue
+        if got != expected[n]:
+            problems.append(f"later clean render of {n!r} gave {got!r}, a fresh environment gives {expected[n]!r}")
+    return problems
+
+
+def native_history(tier, seed):
+    import time
+    res = []
+    for enable_async in (False, True):
+        t0 = time.time()
+        mode = "async" if enable_async else "sync"
+        box = [Clock()]
+        ref = history_env(enable_async, box)
+        expected, events = {}, {}
+        for n in HISTORY_TEMPLATES:
+            box[0] = Clock()
+            expected[n] = ref.get_template(n).render()
+            events[n] = box[0].n
+        bad, cases = [], 0
+        cold_events = {}
+        for n in HISTORY_TEMPLATES:  # events of a first (cold) render: imported modules are evaluated too
+            box[0] = Clock()
+            history_env(enable_async, box).get_template(n).render()
+            cold_events[n] = box[0].n
+        for first in HISTORY_TEMPLATES:
+            for way_name, _w in history_ways(enable_async):
+                for warm in (False, True):
+                    for k in range(1, (events if warm else cold_events)[first] + 1):
+                        cases += 1
+                        ps = history_case(enable_async, first, way_name, k, warm, expected)
+                        if ps:
+                            bad.append(({"kind": "history", "async": enable_async, "first": first, "way": way_name, "k": k, "warm": warm}, ps[0]))
+        nm = f"C38.native.history[{mode}]"
+        if bad:
+            wit = dict(bad[0][0], failing=sorted({f"{b[0]['first']}/{b[0]['way']}" for b in bad}))
+            res.append(Res(nm, "refuted", "native", time.time() - t0, f"{len(bad)}/{cases} fault sequences: [{mode}] {bad[0][0]['way']}({bad[0][0]['first']!r}) fault at event "
+                                                                     f"{bad[0][0]['k']}{' (warm caches)' if bad[0][0]['warm'] else ''}: {bad[0][1]}", "bounded", wit))
+        else:
+            res.append(Res(nm, "bounded-ok", "native", time.time() - t0, f"{cases} fault sequences (raising render, then clean renders of all {len(HISTORY_TEMPLATES)} templates)", "bounded"))
+    return res
+
+
+class NativeHistory(Task):
+    """Bounded stand-in for 'subsequent renders of the same and other templates are unaffected'."""
+    kind = "bounded"
+    prop = "C38"
+    name = "C38.native.history"
+    bound_text = ("template family (import, from-import, include with / without context, extends + super, macro, for loop with loop.length / "
+                  "loop.last, attribute / item / str access): for every template, every way of rendering (render, generate, stream, buffered "
+                  "stream 2/3/5, stream.dump; async: render, generate, buffered stream, render_async, generate_async), cold and warm caches and "
+                  "every k up to the number of data events, the k-th data event raises a private exception: it must reach the caller as the "
+                  "same object, and afterwards every template of the family must render exactly as in a fresh environment")
+
+    def run(self, tier, seed):
+        return native_history(tier, seed)
+
+    def replay(self, w):
+        ps = history_case(w["async"], w["first"], w["way"], w["k"], w.get("warm", False))
+        return (bool(ps), f"[{'async' if w['async'] else 'sync'}] {w['way']}({w['first']!r}) fault at event {w['k']}: " + ("; ".join(ps[:3]) or "ok"))
+
+    def finding_key(self, res):
+        w = res.witness or {}
+        return ",".join(w.get("failing", []))
 
 
 class NativeMatrix(Task):
@@ -962,10 +1967,17 @@ class NativeMatrix(Task):
 TASKS = [
     EntryPoint("render", False), EntryPoint("render", True, "Template.render[async]"), EntryPoint("render_async", True),
     EntryPoint("generate", False), EntryPoint("generate", True, "Template.generate[async]"), EntryPoint("generate_async", True),
-    DefaultModule(), HandleException(), RewriteTraceback(),
+    DefaultModule(False), DefaultModule(True), MakeModule(False), MakeModule(True), LoadTemplate("_load_template"), LoadTemplate("get_template"),
+    HandleException(), RewriteTraceback(),
+    BufferedGenerator(), StreamNext(), StreamDump(False), StreamDump(True), BlockCall(False), BlockCall(True),
+    LoopCtx(R.LoopContext, "__next__"), LoopCtx(R.LoopContext, "_peek_next"), LoopCtx(R.LoopContext, "length"),
+    LoopCtx(R.AsyncLoopContext, "__anext__", ("next",)), LoopCtx(R.AsyncLoopContext, "_peek_next"), LoopCtx(R.AsyncLoopContext, "length", ("len",)),
+    MacroCallFrame(), DoLast(), DoFirstAsync(), IterToAsync(),
+    NativeEntry("render", False, "NativeTemplate.render"), NativeEntry("render", True, "NativeTemplate.render[async]"),
+    NativeEntry("render_async", True, "NativeTemplate.render_async"),
     EnvGetattr(E.Environment), EnvGetitem(E.Environment), EnvGetattr(SB.SandboxedEnvironment), EnvGetitem(SB.SandboxedEnvironment),
     ContextCall(), TestSequence(), TestIterable(), DoFirst(), MinOrMax(), DoReverse(), DoRandom(), DoInt(), DoFloat(), DoAttr(),
-    SelectTemplate(), NativeMatrix(),
+    SelectTemplate(), HandlerTable(), NativeMatrix(), NativeHistory(),
 ]
 
 META = {
@@ -974,7 +1986,9 @@ META = {
                    "callee modelled as an abstract callee that may raise an abstract exception object of unknown class. For every path "
                    "the exception either enters only handlers whose classes are documented signals (catch), or leaves the function as "
                    "the same object (same_object; rewrite_traceback_stack returns exc_value.with_traceback(..) of the handled object), and "
-                   "no pre-existing object is written on exceptional exits (no_residue). The statement for whole templates additionally "
+                   "no attribute of a pre-existing object differs from its pre-state on exceptional exits (no_residue; Template module cache, "
+                   "template cache, stream, loop and block objects included). Every `except` clause of src/jinja2 is scanned and must re-raise or be a "
+                   "listed, justified catch (handlers). The statement for whole templates additionally "
                    "relies on the emission contracts (C01/C07/C20) routing every data access through these functions.",
     "assumptions": [
         "A3 exception hierarchy and try/except semantics", "A6 environment hooks (undefined, is_safe_attribute, wrap_str_format, join_path, "
